@@ -238,10 +238,21 @@ def run_history(kind, ops):
         except BaseException as e:     # the class is the observation; messages are never compared
             r = ['err', EXN.get(type(e).__name__, 'EOther'), type(e).__name__]
         assert op == op_in, 'operation arguments were modified by the call'
-        snap = b.snapshot()
+        try:
+            snap = b.snapshot()
+        except BaseException as e:     # content outside the modelled universe (e.g. a cyclic attribute value)
+            out.append({'r': r, 's': None, 'bad': type(e).__name__})
+            break
         out.append({'r': r, 's': None if snap == last else snap})
         last = snap
     return out
+
+
+def uncanonical(obs):
+    for i, o in enumerate(obs):
+        if o.get('bad'):
+            return 'step %d: the store content could not be canonicalised (%s): values outside the modelled universe' % (i, o['bad'])
+    return None
 
 
 def snapshots(obs, empty):
